@@ -6,6 +6,11 @@ ROOT = os.path.dirname(os.path.dirname(os.path.abspath(__file__)))
 
 # property id -> (engine, level category, technique, level text, level note, design ref)
 CHECKS = {
+    "C07": ("ENUM+SEQ", "fault_enumeration",
+            "exhaustive enumeration of single-bit flips, byte substitutions, deletions and insertions inside the protected region of small artifacts; explicit-state exploration of put/corrupt/get histories on the validating cache",
+            "For encoding-table pages, the archive-index footer, an LRU checkpoint file, update-section entries/pages and a saved .idx with pending updates, a local entry header and a V1 Ribbit response with a checksum line: every single-bit flip, every byte substitution (all 255 values for small artifacts), every suffix deletion, 1-byte deletion and 1-byte insertion inside the protected region is applied; accept(mutant) implies that no logical item differs from the original's. Every history <= depth 4/5 over put_validated / mismatching put / get_validated / corrupt-backing-file / reopen on ContentAddressedCache<DiskCache>: a validating get returns bytes only if their MD5 equals the key.",
+            "Trusted: the location of the protected regions (self-checked: at least one mutant must be rejected per artifact) and the logical projections. Multi-bit corruption beyond one byte and artifacts larger than the fixtures are not covered.",
+            "DESIGN.md §4 C07"),
     "C09": ("ENUM", "exploration",
             "bounded-exhaustive enumeration of lengths/splits/alignments/boundary parameters against independent reference implementations (self-checked on published vectors)",
             "Every message length 0..=1024, every split point for piecewise application, boundary keys/IVs/seeds/block indices, counter carries by direct state construction, every CPU-feature subset of the host for the SIMD helpers: the repository's Salsa20, ARC4, lookup3, MD5 keys and accelerated helpers are compared with reference implementations written from the algorithm descriptions; the references check themselves against 51 published known-answer vectors at start-up (a failing reference is a machinery error, never a verdict).",
